@@ -272,6 +272,8 @@ def check(rep, F, tier, replay=None):
     ord_eq_rule(rep, F)
     from ruleutil import datum_id_rule
     datum_id_rule(rep, F)
+    from ruleutil import hash_eq_rule
+    hash_eq_rule(rep, F)
     return rep.finish(
         EXPLANATION,
         ["BTreeSet/HashSet::insert returns true exactly when the element was absent (std)", "Rc<T>'s Eq/Ord/Hash delegate to T", "JSON/CBOR readers of Vec<T> preserve element order"],
